@@ -217,6 +217,11 @@ func (p *peer) Dial(addr string, protoFunc ...ProtoFunc) (Session, *Status) {
 		return nil
 	})
 	if err != nil {
+		// a dial hook may have listed the session (SetID) before a later verdict or
+		// attempt failed: it never became a session and must not stay in the index
+		if sess.getConn() != nil {
+			p.sessHub.deleteSession(sess)
+		}
 		return nil, statDialFailed.Copy(err)
 	}
 
